@@ -1,9 +1,12 @@
 (** C01 - Formula-based samplers return only valid trial sequences.
 
     [C01_sound]: for every flat record in the fragment F1 (CodeSem.in_f1:
-    simple and WithinTrial factors, sustain 1, kinds Consistency / Cross /
-    Derivation / AtMostKInARow / ExactlyK / Exclude / Pin, nothing excluded from
-    a crossing) every model of the formula the samplers hand to the solver
+    simple and WithinTrial factors in any design order, all of them in
+    act_design, sustain 1, any number of crossings and chunks (partial last
+    chunk, crossing weights, weighted levels), kinds Consistency / Cross /
+    Derivation / AtMostKInARow / AtLeastKInARow / ExactlyKInARow / ExactlyK /
+    Exclude / Pin / Sequential, combinations left out of a crossing by Exclude
+    constraints or by a crossed derived level no compatible arguments satisfy) every model of the formula the samplers hand to the solver
     ([full_cnf] = [combine_cnf_with_requests] of the compiled request) is, on
     the trial variables, the one-hot image of a sequence that is valid for the
     reference semantics [Sem.valid_b (code_sem fb)].
@@ -11,8 +14,8 @@
     formula has a model extending an assignment of the variables below [b_fresh]
     iff that assignment satisfies the clauses and every cardinality request.
     [C01_compile_denotes]: the request itself, read semantically.
-    [C01_atleast_window] / [C01_exactly_in_a_row_window] (kinds outside F1, for
-    every k >= 1 and every window length): the implications that
+    [C01_atleast_window] / [C01_exactly_in_a_row_window] (for every k >= 1 and
+    every window length; used inside F1 and valid outside it): the implications that
     AtLeastKInARow / ExactlyKInARow hand to the Tseitin conversion for one
     window hold iff every maximal run of the level in the window has length
     at least k / exactly k. *)
@@ -81,3 +84,13 @@ Example C01_example :
   in_f1 ex_stroop = true /\ (0 < T ex_stroop)%nat /\
   (exists b, compile ex_stroop = COk b) /\ length (all_valid (code_sem ex_stroop)) = 6%nat.
 Proof. exact ex_stroop_facts. Qed.
+
+(** ... and by a design of the widened fragment: crossed derived factor (four
+    inconsistent combinations left out), Sequential, AtLeastKInARow, ExactlyKInARow *)
+Example C01_example_wide :
+  in_f1 ex_wide = true /\ (0 < T ex_wide)%nat /\
+  length (trial_combinations_of ex_wide (0 :: 1 :: 2 :: nil)%nat) = 4%nat /\
+  length (crossing_combos ex_wide (0 :: 1 :: 2 :: nil)%nat) = 8%nat /\
+  (exists b, compile ex_wide = COk b /\ b_fresh b = 139%Z) /\
+  length (all_valid (code_sem ex_wide)) = 1%nat.
+Proof. exact ex_wide_facts. Qed.
